@@ -59,6 +59,15 @@ def make_case(args):
         E[max(i2 - 1, 0), j2] += 1.0
         E += 0.015625
         kind = "tied_dp"
+    if mode != "scaleby" and all((np.asarray(dirs) == x).any() for x in (30.0, 270.0)) and nf >= 3 and rng.random() < 0.3:
+        # a crossing sea whose mean direction is exactly due north up to round-off (2 units from 30°, 1 unit from 270°, in the
+        # published convention): the (…) % 360 of a tiny negative number must not come out as 360.0
+        E = np.zeros((nf, nd))
+        i0 = rng.randrange(1, nf - 1)
+        for i, w in ((i0, 1.0), (i0 - 1, 0.25)):
+            E[i, int(np.where(np.asarray(dirs) == 30.0)[0][0])] = 2.0 * w
+            E[i, int(np.where(np.asarray(dirs) == 270.0)[0][0])] = 1.0 * w
+        kind = "dm_cardinal"
     if mode == "scaleby" and rng.random() < 0.35:
         # valid spectrum without an interior peak: tp/dpm are NaN, so a tp/dpm range is never met
         E = np.array([[(nf - i) * (1 + (j % 3)) for j in range(nd)] for i in range(nf)], dtype=float)
